@@ -65,7 +65,22 @@ BOUNDS = (
     "deep fingerprint of every retained version and open reader unchanged; the reflection "
     "battery above is also run on the side-effect-copied nodes (quick: 8 snapshots). After "
     "every step every retained version's content equals a dict model of the version it was "
-    "committed as and its deep fingerprint equals the one taken at commit. Not covered: "
+    "committed as and its deep fingerprint equals the one taken at commit. Caller-owned objects "
+    "are not aliased (C11.caller_objects_not_aliased): both zone kinds x relativize on/off x the "
+    "write that stores a caller-owned object {add on a new name, replace of an existing RRset, add "
+    "merging into an existing RRset} x the object handed over {dns.rdataset.Rdataset, an Rdataset "
+    "built from a caller-owned list of rdatas, dns.rrset.RRset} = 36 enumerated scenarios on the "
+    "'small' base zone: the transaction also keeps every (name, rdataset) pair its writer yields from "
+    "iterate_rdatasets() and what get()/get_node() return before the commit; after the commit a "
+    "reader is opened on the new version, two more versions are committed (an unrelated name; "
+    "another type at the same name, which copies the node) with a reader on each; then the caller "
+    "mutates its own objects one call at a time (Rdataset add / discard / remove / update_ttl / ttl "
+    "assignment / union_update / intersection_update / del [0] / clear / add again, on the object "
+    "handed over and on every mutable rdataset obtained from the writer; append / clear on the "
+    "list) and after every call the open readers' views (iteration, get, get_node, objects fetched "
+    "before the mutation), fresh readers by id on the three versions and the zone's own content "
+    "must equal the snapshot taken before the first mutation (which is compared with the model). "
+    "Not covered: "
     "threads (C12), attribute assignment on the B-tree container objects themselves, private "
     "attributes."
 )
@@ -1140,10 +1155,206 @@ def glue_pass(R):
     )
 
 
+# =================================================================== caller-owned objects
+
+
+_ALIAS_HOW = ("add_new", "replace", "add_merge")
+_ALIAS_FORM = ("rdataset", "rdataset_from_list", "rrset")
+_ALIAS_WHAT = {
+    "add_new": "txn.add(name, obj) on a new name",
+    "replace": "txn.replace(name, obj) over an existing RRset",
+    "add_merge": "txn.add(name, obj) merging into an existing RRset",
+}
+
+
+def _alias_mutations(obj, spare, other):
+    """(label, thunk) list: in-place mutators of a caller-owned Rdataset / RRset."""
+
+    def first():
+        return list(obj)[0] if len(obj) else spare
+
+    return [
+        ("add(rdata)", lambda: obj.add(spare)),
+        ("discard(rdata)", lambda: obj.discard(first())),
+        ("update_ttl(1)", lambda: obj.update_ttl(1)),
+        ("ttl = 7", lambda: setattr(obj, "ttl", 7)),
+        ("union_update(other)", lambda: obj.union_update(other)),
+        ("remove(rdata)", lambda: obj.remove(first())),
+        ("intersection_update(other)", lambda: obj.intersection_update(other)),
+        ("add(rdata, ttl)", lambda: obj.add(spare, 9)),
+        ("del [0]", lambda: obj.__delitem__(0)),
+        ("clear()", lambda: obj.clear()),
+        ("add(rdata) after clear()", lambda: obj.add(spare)),
+    ]
+
+
+def _alias_one(R, kind, rel, how, form):
+    """One scenario of C11.caller_objects_not_aliased -> [(clause, what, sig)]."""
+    import dns.rrset
+
+    clause = "C11.caller_objects_not_aliased"
+    label = ("alias", kind, rel, how, form)
+    fails = []
+    sp = "rel" if rel else "abs"
+    z = M.zone_class(kind)(M.ORIGIN, relativize=rel)
+    z.set_max_versions(None)
+    model = M.base_model("small")
+    M.load(z, model)
+    n = 3 if how == "add_new" else 1  # "c" is absent from the base, "a" holds A a1 (TTL 300)
+    name = M.spell(n, sp)
+    keys = ["a2"] if how == "add_merge" else ["a2", "a3"]
+    ttl = 120
+    op = {"op": "replace" if how == "replace" else "add", "n": n, "sp": sp, "form": "rdataset", "ttl": ttl, "rds": keys}
+    lst = None
+    if form == "rdataset":
+        obj = dns.rdataset.Rdataset(IN, dns.rdatatype.A, ttl=ttl)
+        for k in keys:
+            obj.add(M.rd(k))
+        args = (name, obj)
+    elif form == "rdataset_from_list":
+        lst = [M.rd(k) for k in keys]
+        obj = dns.rdataset.from_rdata_list(ttl, lst)
+        args = (name, obj)
+    else:
+        obj = dns.rrset.from_rdata_list(name, ttl, [M.rd(k) for k in keys])
+        args = (obj,)
+    readers = []
+    try:
+        # ---- version 1: the write that hands over the caller's object
+        w = M.safe_writer(z)
+        (w.replace if how == "replace" else w.add)(*args)
+        held = [(str(nm), rds) for nm, rds in w.iterate_rdatasets()]
+        held.append((str(name), w.get(name, dns.rdatatype.A)))
+        wnode = w.get_node(name)
+        w.commit()
+        exp = model.copy()
+        if exp.apply(op) is not None:
+            return fails
+        r1 = z.reader()
+        readers.append(r1)
+        fetched = [("reader.get()", r1.get(name, dns.rdatatype.A), _rds_fp), ("reader.get_node()", r1.get_node(name), _node_fp),
+                   ("writer.get_node() before commit", wnode, _node_fp)]
+        if M.txn_fp(r1, z) != exp.fp():
+            if R is not None:
+                R.note(f"C11 alias scenario {label}: committed content differs from the model before any mutation (C10's subject): "
+                       + M.fp_diff(exp.fp(), M.txn_fp(r1, z)))
+            return fails
+        # ---- version 2 (unrelated name) and version 3 (another type at the same name: node copied)
+        with M.safe_writer(z) as w2:
+            w2.add(M.spell(5, sp), 30, M.rd("t1"))
+        readers.append(z.reader())
+        with M.safe_writer(z) as w3:
+            w3.add(name, 60, M.rd("t2"))
+        readers.append(z.reader())
+        ids = [r.version.id for r in readers]
+        if len(set(ids)) != 3:
+            return fails
+
+        def views():
+            v = {}
+            for i, r in enumerate(readers):
+                v[f"open reader on version {i + 1} (iteration)"] = M.txn_fp(r, z)
+                v[f"version {i + 1} content (deep fingerprint)"] = snapshot_fp(r.version, z)
+                g = r.get(name, dns.rdatatype.A)
+                v[f"open reader on version {i + 1} get()"] = None if g is None else _rds_fp(g)
+                fr = z.reader(id=ids[i])
+                try:
+                    v[f"fresh reader(id=) on version {i + 1}"] = M.txn_fp(fr, z)
+                finally:
+                    fr.rollback()
+            for what, o, fp in fetched:
+                v["object from " + what + " of version 1"] = None if o is None else fp(o)
+            v["zone content"] = M.zone_fp(z)
+            return v
+
+        before = views()
+
+        def judge(objname, sigobj, mut):
+            after = views()
+            for k in before:
+                if after[k] != before[k]:
+                    d = M.fp_diff(before[k], after[k]) if isinstance(before[k], dict) else f"{before[k]!r} -> {after[k]!r}"[:300]
+                    fails.append((
+                        clause,
+                        f"{kind}/relativize={rel}: after {_ALIAS_WHAT[how]} with a caller-owned {form} and commit, the caller's {mut} on {objname} "
+                        f"changed: {k}: {d}",
+                        {"check": "alias", "object": sigobj, "class": "a committed version / open reader changed when the application mutated its own object after the commit"},
+                    ))
+                    return True
+            return False
+
+        # ---- the caller mutates its own objects, one call at a time
+        targets = [("the object handed to the transaction", "caller-owned object passed to add/replace", obj)]
+        for nm, o in held:
+            if o is obj or o is None:
+                continue
+            targets.append((f"the {type(o).__name__} {dns.rdatatype.to_text(o.rdtype)} at {nm} obtained from the writer before commit",
+                            "rdataset obtained from the writer (iterate_rdatasets/get) before commit", o))
+        if lst is not None:
+            for mut, fn in (("list.append(rdata)", lambda: lst.append(M.rd("a1"))), ("list.clear()", lambda: lst.clear())):
+                fn()
+                if R is not None:
+                    R.case(clause, key=label + ("list", mut))
+                if judge("the list of rdatas the Rdataset was built from", "caller-owned list of rdatas", mut):
+                    return fails
+        for objname, sigobj, o in targets:
+            spare = _spare_rdata(o) or M.rd("a1")
+            other = dns.rdataset.from_rdata(5, spare)
+            muts = _alias_mutations(o, spare, other)
+            if isinstance(o, dns.rdataset.ImmutableRdataset):
+                muts = [m for m in muts if m[0] in ("add(rdata)", "update_ttl(1)", "clear()")]  # each must simply refuse
+            for mut, fn in muts:
+                try:
+                    fn()
+                    legal = True
+                except Exception:  # noqa: BLE001 - an immutable object refusing the call is fine
+                    legal = False
+                if R is not None:
+                    R.case(clause, key=label + (sigobj, objname, mut), nontrivial=legal)
+                if judge(objname, sigobj, mut):
+                    return fails
+    finally:
+        for r in readers:
+            try:
+                r.rollback()
+            except Exception:  # noqa: BLE001
+                pass
+    return fails
+
+
+def alias_pass(R):
+    """C11.caller_objects_not_aliased over every (zone kind, relativize, write, object form)."""
+    done = 0
+    for kind in ("versioned", "btree"):
+        for rel in (True, False):
+            for how in _ALIAS_HOW:
+                for form in _ALIAS_FORM:
+                    if R.deadline():
+                        return
+                    try:
+                        with M.watchdog(30):
+                            fails = _alias_one(R, kind, rel, how, form)
+                    except (M.Wedged, M.HarnessTimeout):
+                        R.note(f"C11 alias scenario {(kind, rel, how, form)}: zone wedged / watchdog fired")
+                        continue
+                    except Exception as e:  # noqa: BLE001
+                        import traceback
+
+                        R.note(f"harness error in alias scenario {(kind, rel, how, form)}: {type(e).__name__}: {e} {traceback.format_exc(limit=3)}")
+                        continue
+                    done += 1
+                    if done == 1:
+                        R.sample("C11.caller_objects_not_aliased", {"kind": kind, "relativize": rel, "write": _ALIAS_WHAT[how], "object": form})
+                    for clause, what, sig in fails:
+                        R.violation(clause, what, sig=sig, replay={"check": "alias", "kind": kind, "relativize": rel, "how": how, "form": form})
+    R.note(f"C11 caller-owned-object scenarios run: {done}")
+
+
 # =================================================================== entry points
 
 
 def run(R):
+    R.guard("C11.caller_objects_not_aliased", alias_pass, R)
     R.guard("C11.immutable", immutability_pass, R)
     R.guard("C11.immutable", glue_pass, R)
     n = 700 if R.quick else 12000
@@ -1189,6 +1400,11 @@ def replay(data):
     if data.get("check") == "immutable":
         bad, detail, _f, _u = _immut_one(None, data["kind"], data["relativize"], data["base"])
         return bad, detail
+    if data.get("check") == "alias":
+        fails = _alias_one(None, data["kind"], data["relativize"], data["how"], data["form"])
+        if fails:
+            return True, fails[0][0] + ": " + fails[0][1]
+        return False, "committed versions and open readers are unaffected by mutations of the caller's objects"
     if data.get("check") == "glue":
         h = G.run_steps(data["relativize"], [list(st) for st in data["steps"]], None, None, _glue_surface(None))
         if h.fails:
